@@ -47,6 +47,50 @@ func (c *pluginEmitter) EmitSet(chain, key, val string) *boltvm.Response {
 	return boltvm.Success(nil)
 }
 
+// ---- a small key/value surface on the emitter's own state (every method an account may call directly):
+// the ledger paths of Stub.Get / Set / Delete for present, absent, deleted and EMPTY values
+
+// Put writes the key only when it is absent.
+func (c *pluginEmitter) Put(key, val string) *boltvm.Response {
+	if ok, _ := c.Get(key); !ok {
+		c.Set(key, []byte(val))
+	}
+	return boltvm.Success(nil)
+}
+
+// Del deletes the key.
+func (c *pluginEmitter) Del(key string) *boltvm.Response {
+	c.Delete(key)
+	return boltvm.Success(nil)
+}
+
+// Has succeeds iff the key is present (whatever its value, the empty one included).
+func (c *pluginEmitter) Has(key string) *boltvm.Response {
+	ok, val := c.Get(key)
+	if !ok {
+		return boltvm.Error(boltvm.ErrorCode("9990003"), "no such key")
+	}
+	return boltvm.Success(val)
+}
+
+// PutEmpty stores a zero-length value under the key.
+func (c *pluginEmitter) PutEmpty(key string) *boltvm.Response {
+	c.Set(key, []byte{})
+	return boltvm.Success(nil)
+}
+
+// SetFail overwrites the key and then fails.
+func (c *pluginEmitter) SetFail(key, val string) *boltvm.Response {
+	c.Set(key, []byte(val))
+	return boltvm.Error(boltvm.ErrorCode("9990004"), "fails after the write")
+}
+
+// Overwrite writes the key unconditionally.
+func (c *pluginEmitter) Overwrite(key, val string) *boltvm.Response {
+	c.Set(key, []byte(val))
+	return boltvm.Success(nil)
+}
+
 type pluginRelay struct {
 	boltvm.Stub
 }
